@@ -118,7 +118,8 @@ def observe(rep, ctx, v, state, obs, chain):
         except Exception as ex:
             rep.add(key_of(op, state, obs, f"coordinates-raised-{type(ex).__name__}"), detail({"exception": repr(ex)}), "projection raised")
             continue
-        diffs = [k for k in ("pos", "rev") if pr[k] != obs[k]]
+        # a feature of which the view retains nothing has no orientation to speak of
+        diffs = [k for k in ("pos", "rev") if pr[k] != obs[k] and (k == "pos" or obs["pos"])]
         if diffs:
             rep.add(key_of(op, state, obs, ",".join(diffs)), detail({"observed": pr}), f"alignment feature differs in {diffs}")
         if not partial:
@@ -212,7 +213,7 @@ def observe_region(rep, ctx, v, state, obs, chain):
             continue
         g = got[0]
         pr = I.project(g)
-        diffs = [k for k in ("pos", "rev") if pr[k] != robs[k]]
+        diffs = [k for k in ("pos", "rev") if pr[k] != robs[k] and (k == "pos" or robs["pos"])]
         if diffs:
             sub.add(f"{tag}:" + ",".join(diffs), lambda pr=pr: {"observed": pr}, f"differs in {diffs}")
         if partial and robs["pos"]:
